@@ -135,11 +135,22 @@ func reorder(funcs []*provider, initF *provider) ([]*provider, error) {
 	}
 	cannotReorder := make([]int, 0, len(funcs))
 	lastNoReorder := -1
+	finalFunc := -1
+	for i, fm := range funcs {
+		if fm.group == finalGroup {
+			finalFunc = i
+		}
+	}
 	for i, fm := range funcs {
 		if fm.reorder && fm.group == runGroup {
 			// All reorder functions must be after the end of the
 			// static set
 			aAfterB(true, i, lastStatic)
+		}
+		if fm.reorder && i != finalFunc {
+			// the final function should be the last one: it does not wait (weak) for
+			// providers whose dependencies are never met
+			aAfterB(false, finalFunc, i)
 		}
 		debugln("\t", i, "is", fm)
 		if !fm.reorder {
